@@ -247,7 +247,8 @@ def build(rng, nodes, creates, mode, use_pull, upto=None, state=None):
             conn.CreateInstance(inst, namespace=NSNAME[n["ns"]])
         log.append("CreateInstance x %d node instances" % len(nodes))
     state = {"conn": conn, "log": log, "alid": 0, "made": {}, "nmod": {},
-             "alids": {}, "pos": 0, "rejected": 0, "notrejected": 0}
+             "alids": {}, "pos": 0, "rejected": 0, "notrejected": 0,
+             "rrng": random.Random(len(creates))}
     return _build_ops(rng, nodes, creates, mode, state, upto)
 
 
@@ -273,9 +274,14 @@ def _build_ops(rng, nodes, creates, mode, state, upto):
     made = state["made"]     # position of the create in `creates` -> path
     nmod = state["nmod"]
     upto = len(creates) if upto is None else upto
+    rng0 = rng
     for pos in range(state["pos"], upto):
         c = creates[pos]
         kind = c.get("op", "create")
+        # rejected creates draw their spellings from a generator of their
+        # own: the stream of the job's generator (filter lists, spellings of
+        # the other operations) is the same with and without them
+        rng = state["rrng"] if kind == "reject" else rng0
         if kind == "modify":
             _modify(rng, conn, log, made, nmod, c)
             continue
@@ -919,13 +925,16 @@ def random_graph(rng, nnodes, nassoc):
     # namespace where the call collides with a stored copy
     def homes(c, ns):
         return {ns} | {nodes[e - 1]["ns"] for e in c["ends"] if e}
-    for _ in range(rng.choice((0, 1, 2, 3))):
-        pos = rng.randrange(len(creates))
+    # (own generator, derived from the graph: the stream of `rng`, and with
+    # it every graph of earlier versions of the check, stays as it was)
+    rr = random.Random(repr(creates))
+    for _ in range(rr.choice((0, 1, 2, 3)) if creates else 0):
+        pos = rr.randrange(len(creates))
         t = creates[pos]
         ends = list(t["ends"])
         if t["cls"] == "AL":
-            ends = [rng.choice(ns_ + [0]), rng.choice(ms_ + [0])]
-        ns = rng.choice((1, 2))
+            ends = [rr.choice(ns_ + [0]), rr.choice(ms_ + [0])]
+        ns = rr.choice((1, 2))
         if homes({"ends": ends}, ns) & homes(t, t["ns"]):
             ops.append({"op": "reject", "cls": t["cls"], "ends": ends,
                         "ns": ns, "target": pos})
